@@ -478,6 +478,13 @@ def dedupBytes : List Bytes → List Bytes
 /-- (as found) an emitted vendor attribute whose OID is empty: `attr.OID[0]` panics -/
 def vendorAttrPanics (a : Attribute) : Bool := hasTemplate a.typ && a.oid.isEmpty
 
+/-- Known limits of the model (see Props/C17 `names_wellformed`, `dot_imports_exact`):
+    * the format gate covers the dictionary's own attributes only: a `-ref` option whose name normalises to
+      an identifier starting with a digit makes go/format refuse the text, the model still answers `.ok`
+      (excluded by `extWellFormed` / the hypothesis of `names_wellformed`);
+    * `imports` lists the dot imports in the order of the (sorted) external attributes, de-duplicated;
+      go/format then sorts that import group by path.  As a set it is the same (the driver compares the
+      sorted rendering). -/
 def generate (cfg : Cfg) (d : Dictionary) (o : Options) : Except Err Output := do
   -- top-level attributes
   let checked := kept o d.attributes
